@@ -36,7 +36,7 @@ import warnings
 
 import numpy as np
 
-from .c01 import feed, load_table, table_params as shipped_params
+from .c01 import _ByBase, feed, load_table, reorder, table_params as shipped_params
 from .common import Bounded
 
 RATIOS = (0.1, 0.5, 0.9, 0.9875)
@@ -47,7 +47,7 @@ SYN = {
     "syn_gas_a": {"n": 2000, "p_lo": 10.0, "p_hi": 10000.0, "a": 6e-5, "b": 6e-9, "mu0": 0.012, "mu1": 1.2e-6, "mu2": 4e-11, "rho_factor": 0.05, "p_i": 6000.0},
     "syn_gas_b": {"n": 2000, "p_lo": 10.0, "p_hi": 10000.0, "a": 4e-5, "b": 2e-9, "mu0": 0.02, "mu1": 5e-7, "mu2": 1e-10, "rho_factor": 0.05, "p_i": 9000.0},
 }
-P_INITIAL = {"syn_gas_a": 6000.0, "syn_gas_b": 9000.0, "gas": 8000.0, "haynesville": 12000.0}
+P_INITIAL = _ByBase({"syn_gas_a": 6000.0, "syn_gas_b": 9000.0, "gas": 8000.0, "haynesville": 12000.0})
 _cache = {}
 
 
@@ -69,12 +69,17 @@ def synthetic_gas(par):
 
 
 def params_of(table):
+    if ":" in table:
+        return dict(params_of(table.split(":")[0]), row_order=table.split(":")[1])
     return dict(SYN[table], formula="z = 1 - a p + b p^2; mu = mu0 + mu1 p + mu2 p^2; density = rho_factor p/z; compressibility = 1/p - z'/z; pseudopressure = int_0^p 2q/(mu z) dq") if table in SYN else shipped_params(table)
 
 
 def get_table(table):
     if table not in _cache:
-        _cache[table] = synthetic_gas(SYN[table]) if table in SYN else load_table(table)
+        if ":" in table:
+            _cache[table] = reorder(get_table(table.split(":")[0]), table.split(":")[1])
+        else:
+            _cache[table] = synthetic_gas(SYN[table]) if table in SYN else load_table(table)
     return _cache[table]
 
 
@@ -91,7 +96,7 @@ def get_fluid(table, p_i):
 
 def inconsistency(table, p_i, p_low):
     """delta of the module docstring, from the raw columns only."""
-    tab = get_table(table)
+    tab = get_table(table.split(":")[0])
     p, c, mu, z, m, rho = (np.asarray(tab[k], dtype=float) for k in ("pressure", "compressibility", "viscosity", "z-factor", "pseudopressure", "density"))
     ok = p > 0
     factor = np.interp(p_i, p[ok], 0.5 * c[ok] * mu[ok] * z[ok] / p[ok])
@@ -143,6 +148,8 @@ def one_run(inp):
     ms = np.asarray(fluid.pvt_props["m-scaled"], dtype=float)
     rho = np.asarray(fluid.pvt_props["density"], dtype=float)
     good = np.isfinite(ms) & np.isfinite(rho)
+    order = np.argsort(ms[good], kind="stable")
+    ms, rho, good = ms[good][order], rho[good][order], slice(None)
     rho_of_m = lambda m: np.interp(m, ms[good], rho[good])  # noqa: E731
     m_f = np.asarray(fluid.m_scaled_func(p_sched), dtype=float)
     low = np.minimum.accumulate(m_f)
@@ -253,6 +260,11 @@ def configs(tier, seed):
             out.append(dict(base, schedule={"kind": "stepdown", "levels": 4}))
             for s in seeds:
                 out.append(dict(base, schedule={"kind": "random", "seed": seed * 7919 + 31 * s + int(ratio * 1e4), "nseg": 8}))
+    # the same table with its rows in descending / shuffled order (row order is not part of the precondition)
+    for table, ratio in (("syn_gas_a:desc", 0.5), ("syn_gas_a:shuf", 0.1)):
+        p_i = P_INITIAL[table]
+        out.append({"reservoir": "single", "table": table, "table_params": params_of(table), "p_i": p_i, "p_f": ratio * p_i, "ratio": ratio,
+                    "grid": {"kind": "quadratic", "t_end": T_END, "rule": "linspace(0, sqrt(t_end), nt+1)**2, nt = nx**2/4"}, "schedule": {"kind": "constant"}})
     return out
 
 
